@@ -3,6 +3,7 @@ Driver mode c19: libdialect graph decompositions (harness/c19.cpp).
   kind peel  : run the proven checker `peelOk` on the C++ output (SPECFAIL), compare canonical
                output with the models `peel` (degree based, theorems) and `peelB` (explicit
                buckets) (DIVERGE), then check the symmetric layout boxes (SPECFAIL).
+  kind layout: Tree::symmetricLayout on a directly built tree: no two node boxes overlap (SPECFAIL).
   kind comps : `componentsOk` on the C++ output (SPECFAIL), exact comparison with `getConnComps`.
   kind plan  : planarised graph: original nodes present, no two edges cross (exact rational
                arithmetic on node centres), every original adjacency realised by a chain of
@@ -122,6 +123,27 @@ def checkPeel (c : Case) : CaseResult := Id.run do
     return { verdict := .ok, nontrivial := !m.stems.isEmpty, stats := stats }
   | _, _ => return { verdict := .diverge "model ran out of fuel", stats := stats }
 
+/-- directly built tree + Tree::symmetricLayout: input must be a tree, one box per node, no two
+    boxes overlap -/
+def checkLayout (c : Case) : CaseResult := Id.run do
+  let (ns, es) := inputGraph c
+  let stats : List (String × Nat) := [("layoutDirect.nodes", ns.length)]
+  if !simpleB ns es || !isTree ns es then
+    return { verdict := .diverge "harness produced a layout input that is not a tree", stats := stats }
+  let tsize := nat! (((c.get1 "tsize").getD #["0"])[0]!)
+  if tsize != ns.length then
+    return { verdict := .diverge s!"Tree::size {tsize} for a tree of {ns.length} nodes", stats := stats }
+  match parseBoxes c 0 with
+  | none => return { verdict := .specfail "symmetricLayout: non-finite coordinate", stats := stats }
+  | some bs =>
+    if sortNat (bs.map (·.id)) != ns then
+      return { verdict := .diverge s!"layout: {bs.length} boxes for {ns.length} nodes", stats := stats }
+    if bs.any (fun b => !(b.x < b.X && b.y < b.Y)) then
+      return { verdict := .specfail "symmetricLayout: degenerate box", stats := stats }
+    match firstOverlap bs with
+    | some (a, b) => return { verdict := .specfail s!"symmetricLayout: boxes of nodes {a} and {b} overlap (direct tree, {ns.length} nodes)", stats := stats }
+    | none => return { verdict := .ok, nontrivial := ns.length ≥ 5, stats := ("layoutDirect.boxes", bs.length) :: stats }
+
 def readComps (c : Case) : List Comp :=
   let k := nat! (((c.get1 "ncomps").getD #["0"])[0]!)
   (List.range k).map (fun i =>
@@ -222,6 +244,7 @@ def run (args : List String) : IO UInt32 :=
     match (c.get1 "kind").map (fun a => a[0]!) with
     | some "peel" => checkPeel c
     | some "comps" => checkComps c
+    | some "layout" => checkLayout c
     | some "plan" => checkPlan strictAll c
     | some "skip" => { verdict := .ok, nontrivial := false, stats := [("plan.routerDied", 1)] }
     | _ => { verdict := .diverge "unknown case kind" })
